@@ -349,11 +349,11 @@ fn past_end_probe(emu: &mut Emu, rq: &Req, frames: usize, r: &mut Rng) -> Value 
             cpu.regs.swap_af_alt();
         }
         let mut guard = 0;
-        while emu.verif_cpu().regs.get_pc() != 0x056B {
+        while emu.verif_cpu().regs.get_pc() != 0x056B && guard < 100 {
             step(emu);
             guard += 1;
-            assert!(guard < 100, "0x056B not reached");
         }
+        // (when the trap address is never reached the two runs differ in PC, which is reported)
         cpu_state(emu.verif_cpu())
     };
     let reference = run_trap(emu, false);
